@@ -40,8 +40,10 @@ def patterns(n):
         yield bits, [p for b, p in enumerate(pairs) if bits >> b & 1]
 
 
-def build(n, edges, form):
+def build(n, edges, form, vint=False):
     S, h, V = tables(n)
+    if vint:
+        V = np.arange(1, n + 1, dtype=np.int64)[::-1].copy()      # whole-number volumes given with an integer dtype
     rows, cols = [], []
     for i in range(n):
         for j in range(n):
@@ -58,6 +60,7 @@ def build(n, edges, form):
 
 
 def oracle(n, edges, E, T, D, S, h, V):
+    V = np.asarray(V, dtype=float)
     Q = np.zeros((n, n))
     for (a, b) in edges:
         for i, j in ((a, b), (b, a)):
@@ -82,18 +85,21 @@ def run_case(case):
     def add(kind, E, form, T, what, expected=None, observed=None):
         if kind in vs:
             return
-        c = {"n": n, "bits": bits, "edges": case["edges"], "letters": [list(E)], "Ts": [T], "forms": [form]}
-        vs[kind] = viol(f"C01|n={n}|pattern={bits}|{kind}|E={list(E)}|form={form}|T={T}", what, c, expected, observed)
+        c = {"n": n, "bits": bits, "edges": case["edges"], "letters": [list(E)], "Ts": [T], "forms": [form],
+             "vint": case.get("vint", False), "eint": case.get("eint", False)}
+        dt = ("|Vint" if case.get("vint") else "") + ("|Eint" if case.get("eint") else "")
+        vs[kind] = viol(f"C01|n={n}|pattern={bits}|{kind}|E={list(E)}|form={form}|T={T}{dt}", what, c, expected, observed)
 
     for E in (itertools.product(letters, repeat=n) if not (letters and isinstance(letters[0], list))
               else [tuple(x) for x in letters]):
         E = np.array(E, dtype=float)
         for T in Ts:
             for form in case["forms"]:
-                sm, hm, V, S, h = build(n, edges, form)
+                sm, hm, V, S, h = build(n, edges, form, vint=case.get("vint", False))
                 calls += 1
                 try:
-                    Qs = SQRA(energies=E, volumes=V, distances=hm, surfaces=sm).get_rate_matrix(D=D, T=T)
+                    Ein = E.astype(np.int64) if case.get("eint") else E
+                    Qs = SQRA(energies=Ein, volumes=V, distances=hm, surfaces=sm).get_rate_matrix(D=D, T=T)
                 except Exception as e:
                     add("raises", E, form, T, f"get_rate_matrix raised {type(e).__name__}: {str(e)[:100]}")
                     continue
@@ -135,7 +141,7 @@ def run_case(case):
                     except Exception as e:
                         add("metamorphic_raises", E, form, T, f"{type(e).__name__}")
     # ---- call histories on ONE instance (state kept between calls must not leak): all (D,T) words up to length 3
-    if edges:
+    if edges and not case.get("vint") and not case.get("eint") and not case.get("no_reuse"):
         menu = [(1.3, 273.15), (2.6, 273.15), (1.3, 310.0)]
         Es = [np.array(e, dtype=float) for e in (list(itertools.islice(itertools.product(letters, repeat=n), 3))
                                                  if not isinstance(letters[0], list) else [letters[0]])]
@@ -176,6 +182,21 @@ def cases(tier):
         for bits, edges in patterns(n):
             out.append({"n": n, "bits": bits, "edges": edges, "letters": ALPHABET,
                         "Ts": [273.15] if tier == "quick" else [100.0, 273.15, 310.0, 1000.0], "forms": forms})
+    # wide energy spans (far beyond the cap, several thousand kJ/mol above the minimum), low temperature, integer dtypes
+    FAR = [0.0, 4800.0, -2500.0, 12.5]
+    for n in (2, 3):
+        for bits, edges in patterns(n):
+            out.append({"n": n, "bits": bits, "edges": edges, "letters": FAR, "Ts": [100.0, 273.15, 1000.0], "forms": forms[:2],
+                        "no_reuse": True})
+    for bits, edges in patterns(4):
+        out.append({"n": 4, "bits": bits, "edges": edges, "letters": [0.0, 4800.0, -2500.0], "Ts": [273.15],
+                    "forms": ["csr/coo"], "no_reuse": True})
+    for n in (2, 3, 4):
+        for bits, edges in patterns(n):
+            out.append({"n": n, "bits": bits, "edges": edges, "letters": [0.0, 7.0, -3.0], "Ts": [273.15], "forms": forms[:2],
+                        "vint": True})
+            out.append({"n": n, "bits": bits, "edges": edges, "letters": [0.0, 7.0, -612.0], "Ts": [273.15], "forms": forms[:1],
+                        "eint": True, "vint": bits % 2 == 0})
     if tier == "thorough":
         for bits, edges in patterns(5):
             out.append({"n": 5, "bits": bits, "edges": edges, "letters": [0.0, 612.5, -3.7], "Ts": [273.15, 310.0],
